@@ -125,6 +125,45 @@ func init() {
 						f = gen.M{"op": f["op"], "i": 0, "kids": []gen.M{grp, other}}
 					}
 				}
+				if r.Intn(5) == 0 {
+					// one row of the truth table: a formula over an exactly-one group at any polarity, conjoined with a
+					// literal for EVERY variable; rows with few true variables (0, 1, 2: the boundary of "exactly one")
+					// and with the last listed variables true are drawn more often than the others
+					k = 5 + r.Intn(4)
+					grp := gen.UniqAll(r, k)
+					var g gen.M
+					switch r.Intn(5) {
+					case 0:
+						g = gen.M{"op": "not", "i": 0, "kids": []gen.M{grp}}
+					case 1:
+						g = gen.M{"op": "imp", "i": 0, "kids": []gen.M{grp, gen.RandFormula(r, k, 1, 1, 0, 0)}}
+					case 2:
+						g = gen.M{"op": "xor", "i": 0, "kids": []gen.M{grp, gen.RandFormula(r, k, 1, 1, 0, 0)}}
+					case 3:
+						g = gen.M{"op": "eq", "i": 0, "kids": []gen.M{gen.RandFormula(r, k, 1, 1, 0, 0), grp}}
+					default:
+						g = grp
+					}
+					gk, _ := grp["kids"].([]gen.M)
+					val := make([]bool, k+1)
+					nTrue := r.Intn(4)
+					for x := 0; x < nTrue && len(gk) > 0; x++ {
+						pick := len(gk) - 1 - r.Intn(min(3, len(gk))) // among the last listed
+						if r.Intn(3) == 0 {
+							pick = r.Intn(len(gk))
+						}
+						val[gk[pick]["i"].(int)] = true
+					}
+					kids := []gen.M{g}
+					for v := 1; v <= k; v++ {
+						l := gen.M{"op": "v", "i": v, "kids": []gen.M{}}
+						if !val[v] {
+							l = gen.M{"op": "not", "i": 0, "kids": []gen.M{l}}
+						}
+						kids = append(kids, l)
+					}
+					f = gen.M{"op": "and", "i": 0, "kids": kids}
+				}
 				ev := []gen.M{gen.Op("solve")}
 				if i%3 == 0 { // several calls on ONE formula value, also under a negation built around it
 					ev = nil
@@ -260,6 +299,9 @@ func init() {
 			for i := 0; i < env.Pick(3000, 40000); i++ {
 				k := 1 + r.Intn(4)
 				names := gen.Names(k)
+				if r.Intn(2) == 0 {
+					names = gen.RandNames(r, k)
+				}
 				tree := gen.RandSyntaxTree(r, k, 1+r.Intn(8))
 				toks := gen.Tokens(r, tree, names, 1, []float64{0, 0.1, 0.3}[r.Intn(3)])
 				kind := "well-formed"
